@@ -204,6 +204,46 @@ def check_nesting(kinds):
                 continue
             if got is not want:
                 problems.append("copy %d of the source: get_code(top, %s) is %r, running code is %r" % (copy, path, got, want))
+    # registration through each documented calling form of a code_dispatch function binds exactly that nested code
+    # object (and nothing else): decorator form, positional non-decorator form, func= keyword form
+    from stackscope.lowlevel import code_dispatch
+    for form in ("decorator", "positional", "keyword"):
+        @code_dispatch(lambda code: code)
+        def hookfn(code):
+            return "default"
+        impls = {}
+        for i in range(len(kinds)):
+            path = ["n%d" % j for j in range(i + 1)]
+
+            def impl(code, _i=i):
+                return "impl%d" % _i
+            impls[i] = impl
+            try:
+                if form == "decorator":
+                    ret = hookfn.register(ns["top"], *path)(impl)
+                elif form == "positional":
+                    ret = hookfn.register(ns["top"], *(path + [impl]))
+                else:
+                    ret = hookfn.register(ns["top"], *path, func=impl)
+            except Exception as ex:
+                problems.append("%s-form register(top, %s) raised %r" % (form, path, ex))
+                continue
+            if ret is not impl:
+                problems.append("%s-form register(top, %s) returned %r, not the implementation" % (form, path, ret))
+        want_keys = dict((id(rec["n%d" % i]), i) for i in range(len(kinds)) if "n%d" % i in rec)
+        got_keys = dict((id(k), v) for k, v in hookfn.registry.items())
+        for cid, i in want_keys.items():
+            if got_keys.get(cid) is not impls[i]:
+                problems.append("%s-form register(top, n0..n%d, impl): that code object maps to %r" % (form, i, got_keys.get(cid)))
+        extra = [k for k in hookfn.registry if id(k) not in want_keys]
+        if extra:
+            problems.append("%s-form registration also bound other code objects: %r" % (form, extra))
+        for i in range(len(kinds)):
+            c = rec.get("n%d" % i)
+            if c is not None and hookfn(c) != "impl%d" % i:
+                problems.append("%s-form: dispatch on n%d's code gives %r" % (form, i, hookfn(c)))
+        if hookfn(ns["top"].__code__) != "default":
+            problems.append("%s-form: dispatch on top's own code gives %r" % (form, hookfn(ns["top"].__code__)))
     try:
         get_code(ns["top"], "nope")
         problems.append("get_code with a wrong nested name did not raise")
